@@ -1,133 +1,231 @@
 (* C17 - Transactions commit or roll back exactly their own changes.
    Only statements, each closed by [exact], each followed by Print Assumptions.
    The state machine [step]/[run] (Store/C17Txn.v) mirrors engine.go beginTransaction, memory/session.go and the
-   TransactionCommittingIter at statement granularity; [data], [wop], [apply] (table contents, write statements and
-   their effect) are arbitrary, histories are arbitrary lists of (session, statement). *)
+   TransactionCommittingIter at statement granularity; [data], [wop], [apply] (table contents, single-table write
+   statements and their effect), [mop], [mtabs], [mwrites], [mexec] (statements over several tables) are arbitrary,
+   histories are arbitrary lists of (session, statement). *)
 From Coq Require Import List NArith ZArith Bool.
 Import ListNotations.
 From GMS Require Import Store.C17Txn Store.C17TxnProofs.
 
-(* ROLLBACK discards exactly the changes made since BEGIN.  h is ANY interleaving in which session s, between its BEGIN
-   and its ROLLBACK, issues reads, writes and failing statements while the other sessions do whatever they like.
-   Afterwards the database, every other session and everything the others observed are as if s had issued nothing
-   in between, and s itself reads committed data again. *)
+(* ROLLBACK discards exactly the changes made since BEGIN / START TRANSACTION [READ ONLY].  h is ANY interleaving in
+   which session s, between its BEGIN and its ROLLBACK, issues reads, writes (one table, every table registered, several
+   tables), failing statements and savepoint statements while the other sessions do whatever they like.  Afterwards the
+   database, every other session and everything the others observed are as if s had issued nothing in between, and s
+   itself reads committed data again, in no transaction and in no READ ONLY mode. *)
 Theorem C17_rollback_restores :
-  forall data wop (apply : wop -> data -> option data) st s h,
-    quiet_in wop s h ->
-    let st0 := fst (step apply st s Begin) in
-    let '(st1, rs1) := run apply st0 h in
-    let st2 := fst (step apply st1 s Rollback) in
-    let '(stR, rsR) := run apply st0 (without wop s h) in
+  forall data wop (apply : wop -> data -> option data) mop mtabs mwrites (mexec : mop -> list data -> mres data) st s b h,
+    is_begin wop mop b = true -> quiet_in wop mop s h ->
+    let st0 := fst (step apply mtabs mwrites mexec st s b) in
+    let '(st1, rs1) := run apply mtabs mwrites mexec st0 h in
+    let st2 := fst (step apply mtabs mwrites mexec st1 s Rollback) in
+    let '(stR, rsR) := run apply mtabs mwrites mexec st0 (without wop mop s h) in
     (forall t, db st2 t = db stR t) /\
     (forall s', s' <> s -> sess_eq data (ss st2 s') (ss stR s')) /\
-    others data wop s h rs1 = rsR /\
-    (forall t, view st2 s t = db st2 t) /\ tx (ss st2 s) = false /\ ign (ss st2 s) = false.
+    others data wop mop s h rs1 = rsR /\
+    (forall t, view st2 s t = db st2 t) /\ tx (ss st2 s) = false /\ ign (ss st2 s) = false /\ ro (ss st2 s) = false.
 Proof. exact rollback_restores. Qed.
 Print Assumptions C17_rollback_restores.
 
 (* the same without other sessions: the database and the session's own view are those right after BEGIN *)
 Theorem C17_rollback_restores_alone :
-  forall data wop (apply : wop -> data -> option data) st s (qs : list (stmt wop)),
-    (forall q, In q qs -> quiet wop q = true) ->
-    let st0 := fst (step apply st s Begin) in
-    let st2 := fst (step apply (fst (run apply st0 (map (fun q => (s, q)) qs))) s Rollback) in
+  forall data wop (apply : wop -> data -> option data) mop mtabs mwrites (mexec : mop -> list data -> mres data) st s b
+         (qs : list (stmt wop mop)),
+    is_begin wop mop b = true -> (forall q, In q qs -> quiet wop mop q = true) ->
+    let st0 := fst (step apply mtabs mwrites mexec st s b) in
+    let st2 := fst (step apply mtabs mwrites mexec (fst (run apply mtabs mwrites mexec st0 (map (fun q => (s, q)) qs))) s Rollback) in
     forall t, db st2 t = db st0 t /\ view st2 s t = db st0 t.
 Proof. exact rollback_restores_alone. Qed.
 Print Assumptions C17_rollback_restores_alone.
 
 (* COMMIT makes the changes visible: every table the session holds (so every table it wrote) becomes the database
    content, which is exactly what the session itself saw; sessions that do not hold their own copy of the table see it;
-   the session is out of its transaction. *)
+   the session is out of its transaction and of its READ ONLY mode. *)
 Theorem C17_commit_publishes :
-  forall data wop (apply : wop -> data -> option data) st s,
+  forall data wop (apply : wop -> data -> option data) mop mtabs mwrites (mexec : mop -> list data -> mres data) st s,
     let se := begin_tx (ss st s) in
-    let st' := fst (step apply st s Commit) in
+    let st' := fst (step apply mtabs mwrites mexec st s Commit) in
     (forall t x, staged se t = Some x -> db st' t = x) /\
     (forall t, staged se t = None -> db st' t = db st t) /\
     (forall t, db st' t = view st s t) /\
     (forall s' t, s' <> s -> staged (begin_tx (ss st s')) t = None -> view st' s' t = view st s t) /\
-    tx (ss st' s) = false /\ ign (ss st' s) = false.
+    tx (ss st' s) = false /\ ign (ss st' s) = false /\ ro (ss st' s) = false.
 Proof. exact commit_publishes. Qed.
 Print Assumptions C17_commit_publishes.
 
-(* inside an open transaction a write changes the session's own view of that table by exactly the operation (or not
-   at all when the statement fails) and no other table *)
+(* inside an open read-write transaction a write changes the session's own view of that table by exactly the
+   operation (or not at all when the statement fails) and no other table *)
 Theorem C17_write_updates_own_view :
-  forall data wop (apply : wop -> data -> option data) st s t w,
-    holding data (ss st s) ->
-    let st' := fst (step apply st s (Write t w)) in
+  forall data wop (apply : wop -> data -> option data) mop mtabs mwrites (mexec : mop -> list data -> mres data) st s t w,
+    holding data (ss st s) -> ro (begin_tx (ss st s)) = false ->
+    let st' := fst (step apply mtabs mwrites mexec st s (Write t w)) in
     view st' s t = match apply w (view st s t) with Some x => x | None => view st s t end /\
     (forall t', t' <> t -> view st' s t' = view st s t').
 Proof. exact write_updates_own_view. Qed.
 Print Assumptions C17_write_updates_own_view.
 
 (* with autocommit on, each statement is committed on its own: the database changes by exactly the statement (a
-   failing statement changes nothing), the session is idle again and nobody else is touched *)
+   failing statement changes nothing), the session is idle again and nobody else is touched.  [idle] = no transaction
+   object, ignoreAutocommit clear, autocommit on; the second conjunct is the guard that excludes the defect recorded
+   below (C17_statement_after_implicit_commit_not_autocommitted_refuted). *)
 Theorem C17_autocommit_each_statement :
-  forall data wop (apply : wop -> data -> option data) st s t w,
+  forall data wop (apply : wop -> data -> option data) mop mtabs mwrites (mexec : mop -> list data -> mres data) st s t w,
     idle data (ss st s) ->
-    let st' := fst (step apply st s (Write t w)) in
+    let st' := fst (step apply mtabs mwrites mexec st s (Write t w)) in
     db st' t = match apply w (db st t) with Some x => x | None => db st t end /\
     (forall t', t' <> t -> db st' t' = db st t') /\
-    snd (step apply st s (Write t w)) = match apply w (db st t) with Some _ => ROk | None => RErr end /\
+    snd (step apply mtabs mwrites mexec st s (Write t w)) = match apply w (db st t) with Some _ => ROk | None => RErr end /\
     idle data (ss st' s) /\ (forall s', s' <> s -> ss st' s' = ss st s').
 Proof. exact autocommit_each_statement. Qed.
 Print Assumptions C17_autocommit_each_statement.
 
 (* No session observes another session's uncommitted changes: in ANY history, the statements a session issues while
-   it holds an open, not auto-committing transaction (explicit, or autocommit off) can be deleted without changing
-   any result observed by the other sessions, the database, or what the others would read next. *)
+   the end of a statement does not commit (ignoreAutocommit set by START TRANSACTION, or autocommit off) can be deleted
+   without changing any result observed by the other sessions, the database, or what the others would read next. *)
 Theorem C17_no_dirty_read :
-  forall data wop (apply : wop -> data -> option data) st s h,
-    holding data (ss st s) -> quiet_in wop s h ->
-    let '(st1, rs1) := run apply st h in
-    let '(st2, rs2) := run apply st (without wop s h) in
-    others data wop s h rs1 = rs2 /\ (forall t, db st1 t = db st2 t) /\
+  forall data wop (apply : wop -> data -> option data) mop mtabs mwrites (mexec : mop -> list data -> mres data) st s h,
+    holding data (ss st s) -> quiet_in wop mop s h ->
+    let '(st1, rs1) := run apply mtabs mwrites mexec st h in
+    let '(st2, rs2) := run apply mtabs mwrites mexec st (without wop mop s h) in
+    others data wop mop s h rs1 = rs2 /\ (forall t, db st1 t = db st2 t) /\
     (forall s', s' <> s -> forall t, view st1 s' t = view st2 s' t).
 Proof. exact no_dirty_read. Qed.
 Print Assumptions C17_no_dirty_read.
 
 (* single statement form *)
 Theorem C17_uncommitted_statement_changes_nothing_global :
-  forall data wop (apply : wop -> data -> option data) st s q,
-    holding data (ss st s) -> quiet wop q = true ->
-    let st' := fst (step apply st s q) in
+  forall data wop (apply : wop -> data -> option data) mop mtabs mwrites (mexec : mop -> list data -> mres data) st s q,
+    holding data (ss st s) -> quiet wop mop q = true ->
+    let st' := fst (step apply mtabs mwrites mexec st s q) in
     (forall t, db st' t = db st t) /\ (forall s', s' <> s -> ss st' s' = ss st s') /\ holding data (ss st' s).
 Proof. exact step_quiet_holding. Qed.
 Print Assumptions C17_uncommitted_statement_changes_nothing_global.
 
-(* When transactions of different sessions do not overlap in time (the history is a concatenation of blocks: single
-   autocommit statements and BEGIN; body; COMMIT|ROLLBACK, by any sessions), the final database AND every statement
-   result equal running the committed transactions one after another directly on the database. *)
+(* SAVEPOINT / ROLLBACK TO / RELEASE SAVEPOINT (rejected by the memory session): the statement fails and changes
+   nothing - database, other sessions, transaction modes of the session, what the session reads next; inside an open
+   transaction the whole session record stays.  The premise excludes only records that cannot exist between two
+   statements (an autocommit transaction left open). *)
+Theorem C17_failed_savepoint_changes_nothing :
+  forall data wop (apply : wop -> data -> option data) mop mtabs mwrites (mexec : mop -> list data -> mres data) st s,
+    tx (ss st s) = false \/ holding data (ss st s) ->
+    let st' := fst (step apply mtabs mwrites mexec st s Savepoint) in
+    snd (step apply mtabs mwrites mexec st s Savepoint) = RErr /\
+    (forall t, db st' t = db st t) /\ (forall s', s' <> s -> ss st' s' = ss st s') /\
+    (forall t, view st' s t = view st s t) /\
+    ign (ss st' s) = ign (ss st s) /\ ac (ss st' s) = ac (ss st s) /\
+    ro (begin_tx (ss st' s)) = ro (begin_tx (ss st s)) /\
+    (holding data (ss st s) -> sess_eq data (ss st' s) (begin_tx (ss st s))).
+Proof. exact savepoint_changes_nothing. Qed.
+Print Assumptions C17_failed_savepoint_changes_nothing.
+
+(* DDL with an implicit commit inside an open transaction (CREATE TABLE / DROP TABLE / CREATE INDEX / ALTER TABLE):
+   the work of the transaction becomes the database content and is seen by the other sessions; whatever reads, writes
+   and failing statements follow in ANY interleaving, a later ROLLBACK leaves the database, the other sessions and what
+   they observed as if the session had issued nothing after the DDL statement - the earlier writes stay. *)
+Theorem C17_ddl_commits_pending_work :
+  forall data wop (apply : wop -> data -> option data) mop mtabs mwrites (mexec : mop -> list data -> mres data) st s ts h,
+    holding data (ss st s) -> quiet_in wop mop s h ->
+    let st1 := fst (step apply mtabs mwrites mexec st s (Ddl ts)) in
+    (forall t, db st1 t = view st s t) /\
+    (forall s' t, s' <> s -> staged (begin_tx (ss st s')) t = None -> view st1 s' t = view st s t) /\
+    let '(st2, rs2) := run apply mtabs mwrites mexec st1 h in
+    let st3 := fst (step apply mtabs mwrites mexec st2 s Rollback) in
+    let '(stR, rsR) := run apply mtabs mwrites mexec st1 (without wop mop s h) in
+    (forall t, db st3 t = db stR t) /\ (forall s', s' <> s -> sess_eq data (ss st3 s') (ss stR s')) /\
+    others data wop mop s h rs2 = rsR.
+Proof. exact ddl_commits_pending_work. Qed.
+Print Assumptions C17_ddl_commits_pending_work.
+
+(* without other sessions: after DDL; own statements; ROLLBACK the database is what the session saw before the DDL *)
+Theorem C17_ddl_then_rollback_alone :
+  forall data wop (apply : wop -> data -> option data) mop mtabs mwrites (mexec : mop -> list data -> mres data) st s ts
+         (qs : list (stmt wop mop)),
+    holding data (ss st s) -> (forall q, In q qs -> quiet wop mop q = true) ->
+    let st1 := fst (step apply mtabs mwrites mexec st s (Ddl ts)) in
+    let st3 := fst (step apply mtabs mwrites mexec (fst (run apply mtabs mwrites mexec st1 (map (fun q => (s, q)) qs))) s Rollback) in
+    forall t, db st3 t = view st s t.
+Proof. exact ddl_then_rollback_alone. Qed.
+Print Assumptions C17_ddl_then_rollback_alone.
+
+(* START TRANSACTION READ ONLY / READ WRITE: the mode ends with the transaction.  After COMMIT or ROLLBACK in ANY
+   state the session has no transaction, ignoreAutocommit is clear, the next transaction starts READ WRITE and the
+   next write is executed, not rejected.  (That a block START TRANSACTION READ ONLY; ...; COMMIT leaves the following
+   blocks untouched is part of the serial equivalence below.) *)
+Theorem C17_read_only_mode_ends_with_transaction :
+  forall data wop (apply : wop -> data -> option data) mop mtabs mwrites (mexec : mop -> list data -> mres data) st s e,
+    e = Commit \/ e = Rollback ->
+    let st' := fst (step apply mtabs mwrites mexec st s e) in
+    tx (ss st' s) = false /\ ign (ss st' s) = false /\ ro (begin_tx (ss st' s)) = false /\
+    forall t w, snd (step apply mtabs mwrites mexec st' s (Write t w)) =
+                match apply w (db st' t) with Some _ => ROk | None => RErr end.
+Proof. exact read_only_ends. Qed.
+Print Assumptions C17_read_only_mode_ends_with_transaction.
+
+(* When transactions of different sessions do not overlap in time (the history is a concatenation of blocks, by any
+   sessions: single autocommit statements - reads, single- and multi-table writes, unfiltered DELETE, failing and
+   savepoint statements, TRUNCATE and other DDL -, and transactions opened by START TRANSACTION [READ ONLY] or by
+   SET autocommit = 0, with any such statements as body, optionally an implicit-commit statement as the last one,
+   ended by COMMIT or ROLLBACK [and SET autocommit = 1]), the final database AND every statement result equal running
+   the committed transactions one after another directly on the database; READ ONLY bodies have their DML rejected and
+   change nothing.  Guard: no statement between an implicit commit and the end of its block (see the refutation below). *)
 Theorem C17_serial_equivalence_nonoverlapping :
-  forall data wop (apply : wop -> data -> option data) bs st,
+  forall data wop (apply : wop -> data -> option data) mop mtabs mwrites (mexec : mop -> list data -> mres data) bs st,
     all_idle data st ->
-    let '(st', rs) := run apply st (flat_map flatten bs) in
-    (forall t, db st' t = fst (serial apply (db st) bs) t) /\ rs = snd (serial apply (db st) bs) /\ all_idle data st'.
+    let '(st', rs) := run apply mtabs mwrites mexec st (flat_map flatten bs) in
+    (forall t, db st' t = fst (serial apply mtabs mwrites mexec (db st) bs) t) /\
+    rs = snd (serial apply mtabs mwrites mexec (db st) bs) /\ all_idle data st'.
 Proof. exact serial_equivalence. Qed.
 Print Assumptions C17_serial_equivalence_nonoverlapping.
 
-(* A fact about the model OUTSIDE the property's quantifier (the history overlaps: session 2 commits inside session 1's
-   open transaction, and the backend documents no isolation for overlapping writers): COMMIT publishes every table the
+(* The faithful model violates "with autocommit on each successful statement is committed on its own": after
+   BEGIN; INSERT; <DDL with implicit commit> the transaction is over (its work is in the database, no transaction
+   object, autocommit on), yet TransactionCommittingIter.Close left ignoreAutocommit set, so the next INSERT succeeds
+   without being committed and a ROLLBACK discards it.  (A single session; confirmed on the engine, finding
+   implicit-commit-keeps-explicit-transaction-flag.) *)
+Theorem C17_statement_after_implicit_commit_not_autocommitted_refuted :
+  exists (st : state rows) s t w x,
+    st = fst (crun (init tabs0) [(1%N, Begin); (1%N, Write 0%N (Ins [(2%Z, 20%Z)])); (1%N, Ddl [])]) /\
+    tx (ss st s) = false /\ ac (ss st s) = true /\
+    capply w (db st t) = Some x /\ x <> db st t /\
+    snd (cstep st s (Write t w)) = ROk /\ db (fst (cstep st s (Write t w))) t = db st t /\
+    snd (crun st [(s, Write t w); (0%N, Read t); (s, Rollback); (s, Read t)]) = [ROk; RRows (db st t); ROk; RRows (db st t)].
+Proof. exact not_autocommitted_witness. Qed.
+Print Assumptions C17_statement_after_implicit_commit_not_autocommitted_refuted.
+
+(* Facts about the model OUTSIDE the property's quantifier (the histories overlap: session 2 commits inside session 1's
+   open transaction, and the backend documents no isolation for overlapping writers).  COMMIT publishes every table the
    session touched, so a transaction that only READ table 0 wipes out the row another session committed meanwhile.
-   Kept as documentation of the mechanism; it is not a finding and the implementation predicate does not demand it. *)
+   Kept as documentation of the mechanism; not findings, and the implementation predicate does not demand otherwise. *)
 Theorem C17_commit_republishes_read_tables_overlapping_outside_quantifier :
-  exists (d0 : tid -> rows) (h : list (sid * stmt cwop)),
+  exists (d0 : tid -> rows) (h : list (sid * stmt cwop cmop)),
     h = [ (1%N, Begin); (1%N, Read 0%N); (2%N, Write 0%N (Ins [(4%Z, 40%Z)])); (0%N, Read 0%N);
           (1%N, Commit); (0%N, Read 0%N) ] /\
-    snd (run capply (init d0) h) =
+    snd (crun (init d0) h) =
       [ ROk; RRows [(1%Z, 10%Z)]; ROk; RRows [(1%Z, 10%Z); (4%Z, 40%Z)]; ROk; RRows [(1%Z, 10%Z)] ].
 Proof. exists (fun _ => [(1%Z, 10%Z)]), lost_update_history. split; [reflexivity|exact lost_update_results]. Qed.
 Print Assumptions C17_commit_republishes_read_tables_overlapping_outside_quantifier.
 
-(* non-vacuity: a holding session exists and its write stays private; a committed block history runs serially *)
+(* An unfiltered DELETE FROM t0 registers every table of the database in the session: the first read of t1 later in the
+   own transaction returns the contents at the time of the DELETE (not the row session 2 committed since), and the
+   commit puts them back.  In non-overlapping histories the registration is unobservable: the serial equivalence above
+   treats [RWriteAll] exactly like [RWrite]. *)
+Theorem C17_unfiltered_delete_registers_every_table_overlapping_outside_quantifier :
+  exists (h : list (sid * stmt cwop cmop)),
+    h = [ (1%N, Begin); (1%N, WriteAll 0%N DelAll); (2%N, Write 1%N (Ins [(6%Z, 6%Z)])); (0%N, Read 1%N);
+          (1%N, Read 1%N); (1%N, Commit); (0%N, Read 1%N) ] /\
+    snd (crun (init tabs0) h) =
+      [ ROk; ROk; ROk; RRows [(1%Z, 1%Z); (6%Z, 6%Z)]; RRows [(1%Z, 1%Z)]; ROk; RRows [(1%Z, 1%Z)] ].
+Proof. exists delete_all_history. split; [reflexivity|exact delete_all_results]. Qed.
+Print Assumptions C17_unfiltered_delete_registers_every_table_overlapping_outside_quantifier.
+
+(* non-vacuity: a holding session exists; a history of every block form (explicit, READ ONLY, autocommit off with a
+   savepoint statement and a DDL statement before its ROLLBACK, TRUNCATE, statements over two tables) runs serially *)
 Example C17_nonvacuous :
-  let st0 := fst (step capply (init (fun _ => [(1%Z, 10%Z)])) 1%N Begin) in
-  holding rows (ss st0 1%N) /\ all_idle rows (init (fun _ : tid => [(1%Z, 10%Z)])) /\
-  snd (run capply (init (fun _ => [(1%Z, 10%Z)]))
-         (flat_map flatten [Txn 1%N [RWrite 0%N (Ins [(2%Z, 20%Z)]); RRead 0%N] true; Auto 2%N (RRead 0%N);
-                            Txn 2%N [RWrite 0%N (DelKey 1%Z)] false; Auto 1%N (RRead 0%N)])) =
-  [ROk; ROk; RRows [(1%Z, 10%Z); (2%Z, 20%Z)]; ROk; RRows [(1%Z, 10%Z); (2%Z, 20%Z)]; ROk; ROk; ROk;
-   RRows [(1%Z, 10%Z); (2%Z, 20%Z)]].
+  let st0 := fst (cstep (init tabs0) 1%N Begin) in
+  holding rows (ss st0 1%N) /\ all_idle rows (init tabs0) /\
+  snd (crun (init tabs0) (flat_map flatten example_blocks)) =
+  [ROk; ROk; RRows [(1%Z, 10%Z); (2%Z, 20%Z)]; ROk; RRows [(1%Z, 10%Z); (2%Z, 20%Z)];
+   ROk; ROk; ROk; ROk; ROk; RErr; ROk; ROk; ROk; ROk; RErr;
+   RRows [(1%Z, 11%Z)]; ROk; ROk; ROk; RRows [(11%Z, 10%Z); (12%Z, 20%Z); (13%Z, 30%Z)]].
 Proof. exact nonvacuous_example. Qed.
 Print Assumptions C17_nonvacuous.
